@@ -248,23 +248,50 @@ def run(ctx):
     # ---- (4) NaN guard + bounded memcpy in the page writer / builder
     for name, ty in (("update_statistics_float", "float"), ("update_statistics_double", "double")):
         fn = P.fn(name, PW)
-        guard = None
+
+        def nan_polarity(c):
+            """'nan' when the condition is true for NaN (x != x, isnan(x)), 'num' when it is true for numbers only
+            (x == x, !isnan(x)), else None."""
+            c = c.strip()
+            neg = False
+            while c is not None and c.k == "UnaryOperator" and c.op == "!":
+                neg = not neg
+                c = c.c[0].strip()
+            pol = None
+            if c.k == "BinaryOperator" and c.op in ("!=", "==") and src(c.c[0].strip_casts()) == src(c.c[1].strip_casts()):
+                pol = "nan" if c.op == "!=" else "num"
+            elif (c.k == "CallExpr" and "isnan" in (c.callee or "")) or "isnan" in (c.get("m") or ""):
+                pol = "nan"
+            if pol and neg:
+                pol = "num" if pol == "nan" else "nan"
+            return pol
+        guards = []
         for n in fn.body.walk():
             if n.k == "IfStmt":
-                c = [x for x in n.c if x is not None][0]
-                if any(b.k == "BinaryOperator" and b.op == "!=" and src(b.c[0]) == src(b.c[1]) for b in c.walk()) or \
-                        any(x.k == "CallExpr" and "isnan" in (x.callee or "") for x in c.walk()) or \
-                        "isnan" in (c.get("m") or ""):
-                    guard = n
-        mc = fn.calls("memcpy")
-        okg = False
-        if guard is not None:
-            first = min((x for x in guard.walk() if x.i in fn.cfg.where()), key=lambda x: x.i)
-            writes = [c for c in mc if any(x.k == "MemberExpr" and x.name in ("min_value", "max_value")
-                                           for x in c.args()[0].walk())]
-            okg = bool(writes) and all(fn.cfg.node_dominates(first, c) for c in writes)
+                kids = [x for x in n.c if x is not None]
+                pol = nan_polarity(kids[0])
+                if pol:
+                    guards.append((n, kids, pol))
+        writes = [c for c in fn.calls("memcpy") if any(x.k == "MemberExpr" and x.name in ("min_value", "max_value")
+                                                       for x in c.args()[0].walk())]
+
+        def guarded(w):
+            for g, kids, pol in guards:
+                then = kids[1]
+                els = kids[2] if len(kids) > 2 else None
+                inthen = any(x is w for x in then.walk())
+                inelse = els is not None and any(x is w for x in els.walk())
+                if (pol == "num" and inthen) or (pol == "nan" and inelse):
+                    return True
+                if pol == "nan" and not inthen and not inelse and \
+                        any(x.k in ("ContinueStmt", "ReturnStmt", "BreakStmt") for x in then.walk()):
+                    first = min((x for x in g.walk() if x.i in fn.cfg.where()), key=lambda x: x.i)
+                    if fn.cfg.node_dominates(first, w):
+                        return True
+            return False
+        okg = bool(writes) and bool(guards) and all(guarded(w) for w in writes)
         ctx.ob("R6.nan", "nan-guard|%s:%s" % (PW, name), P.where(fn.body),
-               "%s tests for NaN before any min/max update" % name, okg)
+               "%s updates min/max only for values that passed a NaN test (either polarity: skip on `v != v`, or update inside `v == v`)" % name, okg)
     ctx.clause("C16.8 the page writer's integer bounds are the minimum and maximum of everything added, for every ordering of two batches")
     _page_bounds(ctx)
     nmc = _builder_copies(ctx)
